@@ -35,22 +35,30 @@ type flooder struct {
 	fd      int
 	blocked int
 	written int
-	stop    chan struct{}
-	done    chan struct{}
-	inject  chan string
+	// the pipe stayed full (no byte accepted) for this long: the ingester is not reading,
+	// i.e. it is blocked handing a line to the full buffer
+	fullSince   time.Time
+	longestFull time.Duration
+	stop        chan struct{}
+	done        chan struct{}
+	inject      chan string
 }
 
 func startFlood(fd int) *flooder {
 	f := &flooder{fd: fd, stop: make(chan struct{}), done: make(chan struct{}), inject: make(chan string, 1)}
 	_ = syscall.SetNonblock(fd, true)
-	var batch strings.Builder
-	for i := 0; i < 200; i++ {
-		g := auditgen.Syscall(1700000100, 50000+i, "999", "31337", "yes", []string{"flood", fmt.Sprint(i)}, 1, false)
-		for _, r := range g.Recs {
-			batch.WriteString(r.Line + "\n")
+	// single-record events (each one is coalesced and handed to the correlator, which is
+	// slower than reading lines off the pipe) of a session that is never correlated;
+	// sequence numbers keep increasing
+	seq := 50000
+	next := func() []byte {
+		var batch strings.Builder
+		for i := 0; i < 200; i++ {
+			seq++
+			batch.WriteString(auditgen.Simple("USER_START", 1700000100+int64(seq/1000), seq, "999", "31337", "success").Recs[0].Line + "\n")
 		}
+		return []byte(batch.String())
 	}
-	data := []byte(batch.String())
 	go func() {
 		defer close(f.done)
 		for {
@@ -61,7 +69,7 @@ func startFlood(fd int) *flooder {
 				f.writeAll([]byte(s))
 			default:
 			}
-			if !f.writeAll(data) {
+			if !f.writeAll(next()) {
 				return
 			}
 		}
@@ -76,9 +84,16 @@ func (f *flooder) writeAll(p []byte) bool {
 		if n > 0 {
 			p = p[n:]
 			f.written += n
+			f.fullSince = time.Time{}
 		}
 		if err == syscall.EAGAIN {
 			f.blocked++
+			if f.fullSince.IsZero() {
+				f.fullSince = time.Now()
+			}
+			if d := time.Since(f.fullSince); d > f.longestFull {
+				f.longestFull = d
+			}
 			select {
 			case <-f.stop:
 				// finish the current line so that the stream stays well-formed
@@ -110,10 +125,10 @@ func runtimeCell(cause, load string) cellResult {
 	mkfifo(d.sshdPath)
 	mkfifo(d.auditPath)
 	var outReader *os.File
-	switch cause {
-	case "output-dev-full":
+	switch {
+	case cause == "output-dev-full":
 		d.outPath = "/dev/full"
-	case "output-fifo-reader-left":
+	case cause == "output-fifo-reader-left", load == "stalled-output":
 		mkfifo(d.outPath)
 	default:
 		_ = os.WriteFile(d.outPath, nil, 0o644)
@@ -123,7 +138,7 @@ func runtimeCell(cause, load string) cellResult {
 		return res
 	}
 	defer d.kill()
-	if cause == "output-fifo-reader-left" {
+	if cause == "output-fifo-reader-left" || load == "stalled-output" {
 		// the daemon blocks opening the output until a reader shows up
 		fd, err := syscall.Open(d.outPath, syscall.O_RDONLY|syscall.O_NONBLOCK, 0)
 		if err != nil {
@@ -145,18 +160,33 @@ func runtimeCell(cause, load string) cellResult {
 	}
 	defer aw.Close()
 	time.Sleep(50 * time.Millisecond)
-	if outReader != nil {
+	if outReader != nil && load != "stalled-output" {
 		outReader.Close()
 	}
+	if load == "stalled-output" {
+		defer outReader.Close() // held open, never read
+		// correlate the flood's session so that every flood event is written to the (undrained) output
+		_, _ = sw.WriteString("31337 Accepted password for flood from 10.0.0.9 port 9 ssh2\n")
+		_, _ = aw.WriteString(auditgen.Simple("LOGIN", 1700000099, 49999, "999", "31337", "1").Recs[0].Line + "\n")
+		time.Sleep(100 * time.Millisecond)
+	}
 	var fl *flooder
-	if load == "saturated" {
+	if load != "idle" {
 		fl = startFlood(int(aw.Fd()))
 		deadline := time.Now().Add(15 * time.Second)
-		for fl.blocked < 50 && time.Now().Before(deadline) {
+		need := func() bool {
+			if load == "stalled-output" {
+				// nobody drains the events FIFO: the whole pipeline backs up and the audit pipe stays full
+				return fl.longestFull >= 300*time.Millisecond
+			}
+			// flow equilibrium: many times the capacity of the line buffer written, pipe repeatedly full
+			return fl.written >= 8<<20 && fl.blocked >= 50
+		}
+		for !need() && time.Now().Before(deadline) {
 			time.Sleep(5 * time.Millisecond)
 		}
 		res.WriterBlocks = fl.blocked
-		res.Saturated = fl.blocked >= 50
+		res.Saturated = need()
 		if !res.Saturated {
 			close(fl.stop)
 			res.Verdict, res.Detail = "inconclusive", "could not keep the audit pipe full (the daemon consumes faster than the driver writes)"
@@ -209,6 +239,41 @@ func runtimeCell(cause, load string) cellResult {
 	default:
 		res.Verdict = "ok"
 		res.Detail = tail(d.stderr.String(), 1)
+	}
+	return res
+}
+
+// signalBeforeWriters: SIGTERM/SIGINT while both ingesters still wait for a writer to open their pipe.
+func signalBeforeWriters(sig syscall.Signal, name string) cellResult {
+	res := cellResult{Cell: name + "/no-writer-has-opened-the-pipes"}
+	d := &daemon{dir: newDir()}
+	defer os.RemoveAll(d.dir)
+	d.sshdPath = filepath.Join(d.dir, "sshd-pipe")
+	d.auditPath = filepath.Join(d.dir, "audit-pipe")
+	d.outPath = filepath.Join(d.dir, "events.log")
+	mkfifo(d.sshdPath)
+	mkfifo(d.auditPath)
+	_ = os.WriteFile(d.outPath, nil, 0o644)
+	if err := d.start(false); err != nil {
+		res.Verdict, res.Detail = "inconclusive", err.Error()
+		return res
+	}
+	defer d.kill()
+	time.Sleep(300 * time.Millisecond)
+	t0 := time.Now()
+	_ = d.cmd.Process.Signal(sig)
+	exited, code := d.waitExit(exitBound)
+	res.LatencyS, res.ExitCode = time.Since(t0).Seconds(), code
+	if !exited {
+		res.Verdict, res.Detail = "violation", fmt.Sprintf("the daemon is still running %v after %s although it was only waiting for its pipes to be opened", exitBound, name)
+		// release the blocked open(2) calls so that kill() can reap it
+		for _, p := range []string{d.sshdPath, d.auditPath} {
+			if fd, err := syscall.Open(p, syscall.O_WRONLY|syscall.O_NONBLOCK, 0); err == nil {
+				syscall.Close(fd)
+			}
+		}
+	} else {
+		res.Verdict, res.Detail = "ok", tail(d.stderr.String(), 1)
 	}
 	return res
 }
@@ -290,6 +355,18 @@ func runC08(run *mc.Run) int {
 		}
 		judge(runtimeCell(c, "saturated"))
 	}
+	// the consumer is stopped for good (the events output is a FIFO nobody drains): line buffer and
+	// audit pipe are full and stay full; causes that do not depend on reading further audit lines
+	for _, c := range []string{"sigterm", "sshd-pipe-eof", "sigint"} {
+		if !run.Thorough() && c == "sigint" {
+			continue
+		}
+		judge(runtimeCell(c, "stalled-output"))
+	}
+	judge(signalBeforeWriters(syscall.SIGTERM, "sigterm"))
+	if run.Thorough() {
+		judge(signalBeforeWriters(syscall.SIGINT, "sigint"))
+	}
 	for _, which := range []string{"sshd", "audit"} {
 		for _, kind := range []string{"regular-file", "directory", "missing"} {
 			judge(startupCell(which, kind))
@@ -308,7 +385,7 @@ func runC08(run *mc.Run) int {
 		}
 	}
 	cov := mc.Coverage{Level: "fault_enumeration", Evaluations: len(results), Distinct: len(results) - inconclusive, Exhaustive: inconclusive == 0, Samples: samples,
-		Rule:  "fault enumeration on the built binary over real FIFOs: 7 run-time causes (sshd pipe EOF, audit pipe EOF, unparsable audit line, output /dev/full, output FIFO whose reader left, SIGTERM, SIGINT) x load {idle, saturated: a writer keeps the audit FIFO full - observed as EAGAIN on its write end, which only happens while the ingester is blocked on the full 10000-slot line buffer}, 6 start-up causes (sshd/audit path is a regular file, a directory, missing); oracle: the process exits within 10 s of the cause, non-zero for failures. A cell whose set-up could not be reached is inconclusive (exit 0, exhaustive=false). distinct_nontrivial = conclusive cells",
+		Rule:  "fault enumeration on the built binary over real FIFOs: 7 run-time causes (sshd pipe EOF, audit pipe EOF, unparsable audit line, output /dev/full, output FIFO whose reader left, SIGTERM, SIGINT) x load {idle, stalled-output: the events FIFO is never drained so the line buffer and the audit pipe stay full (write end accepts no byte for >=300 ms), saturated: a writer keeps the audit FIFO full - single-record events written at full speed, >=8 MB written and the pipe found full >=50 times - flow equilibrium with the 10000-slot line buffer full}, 6 start-up causes (sshd/audit path is a regular file, a directory, missing); oracle: the process exits within 10 s of the cause, non-zero for failures. A cell whose set-up could not be reached is inconclusive (exit 0, exhaustive=false). distinct_nontrivial = conclusive cells",
 		Extra: map[string]any{"cells": results, "saturated_cells_reached": sat, "inconclusive": inconclusive, "bound_s": exitBound.Seconds()}}
 	cov.Assumptions = []string{"the OS scheduler is not controlled; 10 s is the property's bounded time against observed millisecond latencies",
 		"the decisive blocking state (line buffer full, consumer gone) is also decided deterministically by C13's bubble cells"}
